@@ -87,7 +87,7 @@ def placed (B : Op α) (ro ri : Rng) (r c : Nat) : α :=
 
 /-- the explicit matrix: sum of all placed blocks (`numpy.block` with zero blocks elsewhere) -/
 def BaseBlock.blockDense (B : BaseBlock α) (r c : Nat) : α :=
-  ((B.ops.zip (B.ranOut.zip B.ranIn)).map (fun p => placed p.1 p.2.1 p.2.2 r c)).foldl (· + ·) 0
+  ((B.ops.zip (B.ranOut.zip B.ranIn)).map (fun p => placed p.1 p.2.1 p.2.2 r c)).sum
 
 /-- ranges lie inside the operator's shape and every block has the shape of its ranges -/
 def BaseBlock.WellFormed (B : BaseBlock α) : Prop :=
